@@ -429,7 +429,7 @@ class GenOpts:
         self.max_wrap = 3
         self.p_args = 0.35
         self.p_mutation = 0.3
-        self.p_shared_root = 0.0       # probability that query and mutation share one root object type
+        self.shared_root = False       # query and mutation share one root object type
         self.p_subscription = 0.0
         self.p_explicit = 0.55
         self.p_nonnull = 0.3
@@ -612,7 +612,7 @@ def gen_schema(rng, opts=None):
         q.fields[f.name] = f
     if rng.random() < o.p_mutation:
         s.mutation = "Mutation" if rng.random() > o.rename_roots else pick_unique(rng, ["RootMutation", "M"], used, "Rm")
-        if o.p_shared_root and rng.random() < o.p_shared_root:
+        if o.shared_root:      # decided by the caller without a draw: the random stream of every other case stays what it was
             # `schema { query: R mutation: R }`: one object type serves both operations (accepted by the engine);
             # what makes an operation a mutation is the operation keyword, not the type it starts from
             s.mutation, m = s.query, q
